@@ -24,6 +24,7 @@ pub struct Translated {
     pub sf_calls: BTreeSet<String>,
     pub file: String,
     pub has_loop: bool,
+    pub uses_rngfloat: bool,
 }
 
 fn fnv(s: &str) -> String {
@@ -60,18 +61,22 @@ fn new_ctx<'a>(idx: &'a Index, module: &[String], self_ty: Option<String>, ret: 
         mut_self: false,
         full_ret_lean: None,
         out_params: vec![],
+        rng_mode: false,
+        uses_rngfloat: false,
+        local_fns: HashMap::new(),
     }
 }
 
-fn translate_fn(idx: &Index, fi: &FnInfo) -> R<Translated> {
+pub fn translate_fn(idx: &Index, fi: &FnInfo) -> R<Translated> {
     if fi.generic {
         return Err("generic function".into());
     }
-    if fi.cfg_rand {
+    if fi.cfg_rand && !fi.rng_generic {
         return Err("rand-gated (sampler)".into());
     }
 
     let mut cx = new_ctx(idx, &fi.module, fi.self_ty.clone(), fi.ret.clone(), fi.tybind.clone(), &fi.lean_name);
+    cx.rng_mode = fi.rng_generic;
     let mut binders = String::new();
     if fi.self_kind != SelfKind::None {
         let st = fi.tybind.get("Self").cloned().ok_or("no Self")?;
@@ -90,7 +95,16 @@ fn translate_fn(idx: &Index, fi: &FnInfo) -> R<Translated> {
                 cx.muts.insert(name.clone());
             }
         }
-        let ln = if name == "_" { cx.fresh("_u") } else { cx.bind(&name, t.clone()) };
+        let ln = if name == "_" && *t == Ty::Rng {
+            // `_: &mut R`: the untouched random source is still part of the result
+            let f = cx.fresh("_u");
+            cx.scopes.last_mut().unwrap().insert(WILD_RNG.to_string(), (f.clone(), Ty::Rng));
+            f
+        } else if name == "_" {
+            cx.fresh("_u")
+        } else {
+            cx.bind(&name, t.clone())
+        };
         binders.push_str(&format!(" ({} : {})", ln, lt));
         cx.sig_params.push((ln, lt));
     }
@@ -106,6 +120,7 @@ fn translate_fn(idx: &Index, fi: &FnInfo) -> R<Translated> {
         if fi.param_ref.get(i).copied().unwrap_or(0) == 2 {
             let name = match p {
                 syn::Pat::Ident(id) => id.ident.to_string(),
+                syn::Pat::Wild(_) if *t == Ty::Rng => WILD_RNG.to_string(),
                 _ => return Err("complex &mut parameter".into()),
             };
             cx.mut_self = true;
@@ -115,6 +130,9 @@ fn translate_fn(idx: &Index, fi: &FnInfo) -> R<Translated> {
     }
     cx.full_ret_lean = Some(ret_s.clone());
     let body = tr_stmts(&mut cx, &fi.body.stmts, &Cont::Value(Some(fi.ret.clone())))?;
+    if !cx.prelude.is_empty() {
+        return Err("side effect left pending at the end of the function body".into());
+    }
     let sf = "⟪SF⟫";
     let hash = fnv(&fi.body.to_token_stream().to_string());
     let mut text = String::new();
@@ -146,10 +164,14 @@ fn translate_fn(idx: &Index, fi: &FnInfo) -> R<Translated> {
         deps: cx.deps.clone(),
         const_deps: cx.const_deps.clone(),
         sf_calls: cx.sf_calls.clone(),
-        file: fi.file.clone(),
+        file: if fi.rng_generic { format!("smp:{}", fi.file) } else { fi.file.clone() },
         has_loop: !cx.aux_defs.is_empty(),
+        uses_rngfloat: cx.uses_rngfloat,
     })
 }
+
+/// rust-side name under which a `_: &mut R` parameter is registered
+pub const WILD_RNG: &str = "_rng_wild";
 
 fn translate_const(idx: &Index, ci: &ConstInfo) -> R<Translated> {
     let mut cx = new_ctx(idx, &ci.module, None, ci.ty.clone(), HashMap::new(), &ci.lean_name);
@@ -162,7 +184,7 @@ fn translate_const(idx: &Index, ci: &ConstInfo) -> R<Translated> {
     }
     text.push_str(&format!("/-- {}:{} -/\ndef {} {} : {} :=\n{}\n", ci.file, ci.line, ci.lean_name, BINDERS, ty_s, indent(&v.val())));
     let has_loop = !cx.aux_defs.is_empty();
-    Ok(Translated { key: ci.key.clone(), text, deps: cx.deps, const_deps: cx.const_deps, sf_calls: cx.sf_calls, file: ci.file.clone(), has_loop })
+    Ok(Translated { key: ci.key.clone(), text, deps: cx.deps, const_deps: cx.const_deps, sf_calls: cx.sf_calls, file: ci.file.clone(), has_loop, uses_rngfloat: false })
 }
 
 pub fn indent(s: &str) -> String {
@@ -194,6 +216,12 @@ pub fn reindent(s: &str, base: usize) -> String {
 
 fn gen_file_name(file: &str) -> String {
     // src/distribution/exponential.rs -> D_exponential ; src/function/gamma.rs -> F_gamma
+    // smp:src/distribution/exponential.rs -> Smp_exponential (the samplers of that file, on `Statrs.Model.Rng`)
+    if let Some(f) = file.strip_prefix("smp:") {
+        let g = gen_file_name(f);
+        let rest = g.splitn(2, '_').nth(1).unwrap_or(&g).to_string();
+        return format!("Smp_{}", rest);
+    }
     let p = file.trim_start_matches("src/").trim_end_matches(".rs");
     let parts: Vec<&str> = p.split('/').collect();
     let (pre, rest): (&str, Vec<&str>) = match parts[0] {
@@ -394,8 +422,29 @@ fn main() {
         }
         needs_sf.extend(add);
     }
+    // ---- which items need `[RngFloat α]` (transitively): only samplers
+    let mut needs_rf: BTreeSet<String> = ok.iter().filter(|(_, t)| t.uses_rngfloat).map(|(k, _)| k.clone()).collect();
+    loop {
+        let mut add = vec![];
+        for (k, t) in &ok {
+            if !needs_rf.contains(k) && t.deps.iter().any(|d| needs_rf.contains(d)) {
+                add.push(k.clone());
+            }
+        }
+        if add.is_empty() {
+            break;
+        }
+        needs_rf.extend(add);
+    }
     for (k, t) in ok.iter_mut() {
-        t.text = t.text.replace("⟪SF⟫", if needs_sf.contains(k) { " [SF α]" } else { "" });
+        let mut inst = String::new();
+        if needs_sf.contains(k) {
+            inst.push_str(" [SF α]");
+        }
+        if needs_rf.contains(k) {
+            inst.push_str(" [Statrs.Model.RngFloat α]");
+        }
+        t.text = t.text.replace("⟪SF⟫", &inst);
     }
 
     // ---- per-file emission, topologically sorted
@@ -456,7 +505,15 @@ fn main() {
         let modname = gen_file_name(f);
         let is_f = f.starts_with("src/function/");
         let mut s = String::new();
-        s.push_str(&format!("-- GENERATED by rs2lean from {} — do not edit\nimport Statrs.Gen.Types\n", f));
+        let is_smp = f.starts_with("smp:");
+        if is_smp {
+            s.push_str(&format!(
+                "-- GENERATED by rs2lean from {} (functions generic over the random source `R: Rng`; the source is the explicit word stream `Statrs.Model.Rng`) — do not edit\nimport Statrs.Model.Rng\nimport Statrs.Gen.Types\n",
+                f.trim_start_matches("smp:")
+            ));
+        } else {
+            s.push_str(&format!("-- GENERATED by rs2lean from {} — do not edit\nimport Statrs.Gen.Types\n", f));
+        }
         if !is_f {
             s.push_str("import Statrs.Gen.SF\n");
         }
